@@ -1,6 +1,7 @@
 /- T1 facts about workers.go (C14): the shape the `BB.Workers` model relies on — one critical section of Workers.mutex per model
    step (enqueue + top-up; take; exit), jobs executed outside the mutex, the last worker out wakes the waiters. -/
 import BB.Gen.Skel
+import BB.Gen.Consts
 
 namespace BB.Conform.Workers
 open BB.Skel BB.Gen.Skel
@@ -36,5 +37,8 @@ theorem job_runs_outside_the_mutex :
     between g_Workers_worker (is K.callvar S.Workers_worker_0) (is K.callvar S.Workers_worker_0) (is K.write S.Workers_queue) = true ∧
     dominates g_Workers_worker_0 (is K.callvar S.item_value) (is K.send S.item_output) = true ∧
     beforeExit g_Workers_worker_0 (isKind K.entry) (is K.close S.item_output) = true := by decide
+
+/-- the reply channel of a job has one buffer slot: a worker never blocks on a caller that has gone away (`finish` is always enabled) -/
+theorem reply_channel_is_buffered : BB.Gen.Consts.chancap_Call_0 = 1 := by decide
 
 end BB.Conform.Workers
